@@ -27,11 +27,11 @@ func newWeb(data []byte) map[string]http.Handler {
 }
 
 func get(h map[string]http.Handler, target string) string {
-	code, body, pan := drive.Get(h, "GET", target)
+	code, hdr, body, pan := drive.GetFull(h, "GET", target)
 	if pan != nil {
 		return fmt.Sprintf("PANIC %v", pan)
 	}
-	return fmt.Sprintf("%d\n%s", code, body)
+	return fmt.Sprintf("%d\n%s%s", code, hdr, body)
 }
 
 type webWitness struct {
@@ -110,7 +110,9 @@ func webConcurrent(c *vk.Ctx, ps map[string][]byte, names []string, idx *int64) 
 		preempt = 2
 	}
 	// the last two requests emit warnings ("matched no samples"), which are shown on the page
-	reqs := []string{"/top?f=a", "/flamegraph", "/peek?f=a", "/download", "/top?g=lines&h=b", "/source?f=a", "/top?f=nosuchfunction", "/top?tagroot=nosuchtag"}
+	reqs := []string{"/top?f=a", "/flamegraph", "/peek?f=a", "/download", "/top?g=lines&h=b", "/source?f=a", "/top?f=nosuchfunction", "/top?tagroot=nosuchtag",
+		// legacy routes that redirect with the request's own query
+		"/flamegraphold?f=a&n=7", "/flamegraphold?i=b", "/flamegraph2?f=c"}
 	var mixes [][]string
 	for i := range reqs {
 		for j := i; j < len(reqs); j++ {
